@@ -129,7 +129,16 @@ pub fn handle(line: &str) -> String {
     }
     let mut taint_map = serde_json::Map::new();
     let mut cons_map = serde_json::Map::new();
+    let mut taint_closure = serde_json::Map::new();
+    let mut cons_closure = serde_json::Map::new();
     for n in &all_names {
+        // the closures as the passes compute them (`multi_step_taint`: zero or more steps, `multi_step_constraint`: one or more)
+        let mut t: Vec<String> = taint.multi_step_taint(n).iter().map(nm).collect();
+        t.sort();
+        taint_closure.insert(nm(n), json!(t));
+        let mut c: Vec<String> = cons.multi_step_constraint(n).iter().map(nm).collect();
+        c.sort();
+        cons_closure.insert(nm(n), json!(c));
         let mut t: Vec<String> = taint.single_step_taint(n).iter().map(nm).collect();
         t.sort();
         if !t.is_empty() {
@@ -164,7 +173,8 @@ pub fn handle(line: &str) -> String {
     let lib = runner.file_library();
     json!({"blocks": blocks, "params": cfg.parameters().iter().map(nm).collect::<Vec<_>>(), "exported": exported, "signals": signals,
            "kind": match cfg.definition_type() { program_structure::cfg::DefinitionType::Function => "fn", program_structure::cfg::DefinitionType::Template => "tmpl", _ => "custom" },
-           "ssa": crate::dump::cfg(&cfg), "taint_map": taint_map, "constraint_map": cons_map, "definitions": defs,
+           "ssa": crate::dump::cfg(&cfg), "taint_map": taint_map, "constraint_map": cons_map, "taint_closure": taint_closure,
+           "constraint_closure": cons_closure, "definitions": defs,
            "reports": se.iter().map(|r| crate::analyze::report_json(r, lib)).collect::<Vec<_>>()})
     .to_string()
 }
